@@ -58,7 +58,9 @@ def run(ctx):
       'CourierClient.get_result; 9 RemoteObject chains; remote iterators / '
       'RemoteIterator / RemoteIteratorQueue over sources of length 0-3; shutdown '
       'requested at each point of a 3-call history in 3 ways and in the middle '
-      'of a failing / succeeding call at each position; plus two clients '
+      'of a failing / succeeding call at each position; shutdown of a '
+      'prefetching server while a request is pending on a slow endless '
+      'generator (delay bound 1); plus two clients '
       'x 3 calls against one server under delay bound '
       f'{1 if ctx.quick else 2} (LRU cache fields hooked). distinct = distinct '
       '(part, expression)')
@@ -74,12 +76,21 @@ def run(ctx):
   explorer.explore_all(ctx, MODULE,
                        [('remote_eval', dict(part='two-clients', mode='delay'))],
                        pre_bound=1 if ctx.quick else 2, split=16, hb_cache=True)
+  # a prefetching server is told to shut down while a request is pending on a
+  # slow endless generator: the request is answered (elements + retriable
+  # error, or dropped loudly), nothing hangs, the prefetch thread ends
+  explorer.explore_all(
+      ctx, MODULE,
+      [('prefetch', dict(mode='delay', n=99, ps=ps, k=k, at=at, prop='C14',
+                         script=['shutdown-pending', how]))
+       for how in ('client', 'signal') for ps, k, at in ((1, 2, 0), (1, 2, 1))],
+      pre_bound=1 if ctx.quick else 2, split=8, hb_cache=True)
   ctx.notes['expressions'] = n
 
 
 def replay(ctx, data):
   r = data['replay']
-  h = charness.RemoteEval(**r['params'])
+  h = charness.HARNESSES[r.get('harness', 'remote_eval')](**r['params'])
   res, problems = explorer.replay_once(h, r.get('choices', []))
   for row in h.rows:
     print(row)
